@@ -57,7 +57,13 @@ fn input_coord(
         Ctm::HalfPixel => scale * (dest_coord as f32 + 0.5) - 0.5,
         Ctm::Asymmetric => scale * dest_coord as f32,
         Ctm::AlignCorners => {
-            dest_coord as f32 * (length_original - 1) as f32 / (length_resized - 1) as f32
+            // A single output element maps to the first input element. This
+            // avoids a division by zero.
+            if length_resized > 1 {
+                dest_coord as f32 * (length_original - 1) as f32 / (length_resized - 1) as f32
+            } else {
+                0.
+            }
         }
         Ctm::PytorchHalfPixel => {
             // There are some queries over this transform mode, see
